@@ -427,6 +427,12 @@ func (c *Ctx) rulePair() {
 				}
 			}
 		}
+		if ps.field == "nodeConfig.aux" && found && derived {
+			if msg := c.auxKeptAsGiven(set); msg != "" {
+				rep.bad("R-PAIR", key, "setter field", pos, msg)
+				continue
+			}
+		}
 		switch {
 		case !found:
 			rep.bad("R-PAIR", key, "setter field", pos, "no store to "+ps.field+" is reachable from the setter")
@@ -885,7 +891,11 @@ func (c *Ctx) ruleLogLevels() {
 					rep.bad("R-LOGLEVEL", name, construct, pos, "right operand is not the resolved LogLevel")
 					continue
 				}
-				rep.ok("R-LOGLEVEL", name, construct, pos, "merges exactly *r "+op.String()+" logLevels(level)")
+				if msg := c.mergeNotSkippable(fn, st); msg != "" {
+					rep.bad("R-LOGLEVEL", name, construct, pos, msg)
+					continue
+				}
+				rep.ok("R-LOGLEVEL", name, construct, pos, "merges exactly *r "+op.String()+" logLevels(level); only the loop test, the shortcuts and the resolution flag can bypass it")
 			}
 		}
 		if n == 0 {
@@ -1210,4 +1220,149 @@ func (c *Ctx) blockReaches(from, to *ssa.BasicBlock) bool {
 		return false
 	}
 	return walk(from)
+}
+
+// auxKeptAsGiven: the auxiliary map handed to SetAuxiliary is the map the
+// getter will return: a store of anything else (a fresh map) into
+// nodeConfig.aux happens only where no argument was given or the argument is
+// known to be nil.  An empty but non-nil map is the caller's map all the same.
+func (c *Ctx) auxKeptAsGiven(set *ssa.Function) string {
+	tt := c.eng.tt
+	for _, fn := range c.reach(set) {
+		var fa *FnAnalysis
+		for _, b := range fn.Blocks {
+			for _, in := range b.Instrs {
+				st, ok := in.(*ssa.Store)
+				if !ok {
+					continue
+				}
+				f, ok := st.Addr.(*ssa.FieldAddr)
+				if !ok || fieldName(f) != "nodeConfig.aux" {
+					continue
+				}
+				// the variadic parameter of this function
+				var vp *ssa.Parameter
+				for _, p := range fn.Params {
+					if sl, ok := p.Type().Underlying().(*types.Slice); ok && c.p.isNamed(sl.Elem(), "Auxiliary") {
+						vp = p
+					}
+				}
+				if vp == nil {
+					continue
+				}
+				if fa == nil {
+					fa = c.eng.analyze(fn, nil)
+				}
+				pt := fa.term(nil, vp)
+				for _, s := range fa.statesBefore(in) {
+					vt := fa.term(s, st.Val)
+					// the argument itself: a load of aux[0]
+					if vt.K == "L" && vt.A != nil && vt.A.K == "IA" && vt.A.A == pt {
+						continue
+					}
+					noArg := c.provesFact(fa, s, Fact{aTR, tt.mk(Term{K: "B", S: "==", A: c.intConst(0), B: tt.mk(Term{K: "LEN", A: pt})}), true}, nil)
+					nilArg := false
+					for _, b2 := range fn.Blocks {
+						for _, i2 := range b2.Instrs {
+							if u, ok := i2.(*ssa.UnOp); ok && u.Op == token.MUL {
+								if ia, ok := u.X.(*ssa.IndexAddr); ok && ia.X == ssa.Value(vp) {
+									if v, known := fa.nonNil(s, u); known && !v {
+										nilArg = true
+									}
+								}
+							}
+						}
+					}
+					if !noArg && !nilArg {
+						return "a map other than the caller's is stored at " + c.p.instrPos(in) + " although an argument was given and is not known to be nil: a non-nil (possibly empty) map must be kept as given, or the getter returns a different map"
+					}
+				}
+			}
+		}
+	}
+	return ""
+}
+
+// mergeNotSkippable: in shift/unshift the merge store is bypassed only by the
+// loop test, the shortcut tests on the resolved level and the resolution flag
+// itself - no other condition (e.g. "some bit already set") may skip it.
+func (c *Ctx) mergeNotSkippable(fn *ssa.Function, merge *ssa.Store) string {
+	S := merge.Block()
+	fa := c.eng.analyze(fn, nil)
+	reaches := func(from *ssa.BasicBlock) bool {
+		// S reachable from `from` without passing a loop header (i.e. within this iteration)
+		seen := map[*ssa.BasicBlock]bool{}
+		var walk func(b *ssa.BasicBlock) bool
+		walk = func(b *ssa.BasicBlock) bool {
+			if b == S {
+				return true
+			}
+			if seen[b] {
+				return false
+			}
+			seen[b] = true
+			if _, isHdr := fa.loopOf[b]; isHdr {
+				return false
+			}
+			for _, s := range b.Succs {
+				if walk(s) {
+					return true
+				}
+			}
+			return false
+		}
+		return walk(from)
+	}
+	for d := S.Idom(); d != nil; d = d.Idom() {
+		iff, ok := d.Instrs[len(d.Instrs)-1].(*ssa.If)
+		if !ok {
+			continue
+		}
+		bypass := false
+		for _, sc := range d.Succs {
+			if !reaches(sc) {
+				bypass = true
+			}
+		}
+		if !bypass {
+			continue
+		}
+		if _, isHdr := fa.loopOf[d]; isHdr {
+			continue // the loop test
+		}
+		cond := iff.Cond
+		if no, ok := cond.(*ssa.UnOp); ok && no.Op == token.NOT {
+			cond = no.X
+		}
+		if bo, ok := cond.(*ssa.BinOp); ok && (bo.Op == token.EQL || bo.Op == token.NEQ) {
+			if _, okc := constIntOf(bo.X); okc {
+				continue // shortcut test on the resolved level
+			}
+			if _, okc := constIntOf(bo.Y); okc {
+				continue
+			}
+		}
+		if ph, ok := cond.(*ssa.Phi); ok {
+			// the resolution flag: a bool phi fed by a comma-ok map lookup / constants
+			isOK := false
+			for _, e := range ph.Edges {
+				if ex, ok := e.(*ssa.Extract); ok {
+					if lk, ok := ex.Tuple.(*ssa.Lookup); ok && lk.CommaOk {
+						isOK = true
+					}
+				}
+			}
+			if isOK {
+				continue
+			}
+		}
+		// a type-switch arm (TypeAssert commaok extract) belongs to the resolution
+		if ex, ok := cond.(*ssa.Extract); ok {
+			if _, ok := ex.Tuple.(*ssa.TypeAssert); ok {
+				continue
+			}
+		}
+		return "the merge at " + c.p.instrPos(merge) + " can be skipped by the test at " + c.p.instrPos(iff) + ", which is neither the loop test, a none/all shortcut nor the resolution flag: a level that resolved may not be merged"
+	}
+	return ""
 }
